@@ -14,6 +14,7 @@ use crate::oracle::geom::{self, Affine};
 use crate::oracle::groups;
 use crate::oracle::lattice::Lattice;
 use crate::oracle::lj::lj;
+use super::history::{self, History};
 
 #[derive(Clone, Debug, Serialize, Deserialize)]
 pub struct Case {
@@ -180,6 +181,16 @@ pub fn check(c: &Case, st: &mut Stats) {
             return;
         }
     };
+    let (s, r, lat, atoms) = match judge_absolute(&state, c, st) {
+        Some(x) => x,
+        None => return,
+    };
+    let tol = tolerance(&r);
+    check_variants(c, s, &r, &lat, &atoms, tol, st);
+}
+
+/// clause 1 on the state in hand: score = - lattice energy per molecule (and = the 12-6 sum)
+pub fn judge_absolute(state: &PotentialState<LJShape2>, c: &Case, st: &mut Stats) -> Option<(f64, Reference, Lattice, Vec<LjAtom>)> {
     let atoms = lj_atoms(&state.shape);
     let pl: Vec<Affine> = state.cartesian_positions().map(|t| to_affine(&t)).collect();
     let lat = lattice_of(&state.cell);
@@ -190,12 +201,12 @@ pub fn check(c: &Case, st: &mut Stats) {
         Some(s) => s,
         None => {
             st.violation(viol("undefined-score", c, json!({})));
-            return;
+            return None;
         }
     };
     if r.degenerate || !s.is_finite() {
         st.count("degenerate_states_skipped(coincident particles)");
-        return;
+        return None;
     }
     if r.in_cell_pairs > 0 && r.image_pairs > 0 {
         st.nontrivial(hash64(&[hash_str(&c.group), hash_str(&serde_json::to_string(&c.shape).unwrap_or_default()), hash64(&c.params.quant()), c.shift.map(|s| q(s[0], 1e-6) ^ q(s[1], 1e-6).rotate_left(7)).unwrap_or(0), c.face.unwrap_or(9) as u64]));
@@ -216,14 +227,18 @@ pub fn check(c: &Case, st: &mut Stats) {
             "in_cell_pairs": r.in_cell_pairs, "image_pairs": r.image_pairs, "max_lattice_index": r.max_lattice_index_with_energy,
             "energy_beyond_third_shell": r.beyond_third_shell,
             "cell": {"a": lat.a, "b": lat.b, "angle": lat.theta}})));
-        return;
+        return None;
     }
     if let Some(el) = r.energy_law {
         if !((s + el).abs() <= tol.max(1e-9 * r.mag)) {
             st.violation(viol("not-the-12-6-lattice-sum", c, json!({"library_score": s, "minus_lattice_energy_by_law": -el})));
-            return;
+            return None;
         }
     }
+    Some((s, r, lat, atoms))
+}
+
+fn check_variants(c: &Case, s: f64, r: &Reference, lat: &Lattice, atoms: &[LjAtom], tol: f64, st: &mut Stats) {
     // 2. the same crystal described differently scores the same
     let mut variants: Vec<(String, Params)> = vec![];
     if let Some(sh) = c.shift {
@@ -414,13 +429,57 @@ pub fn gen_case<R: Rng>(rng: &mut R) -> Case {
     Case { group, shape, params, shift, face }
 }
 
+/// one Lennard-Jones state object edited again and again; clause 1 after every edit
+pub fn check_history(h: &History, st: &mut Stats) {
+    let before = st.violations.len();
+    let shapes: Vec<LJShape2> = h.shapes.iter().filter_map(|s| s.lj()).collect();
+    if shapes.len() != h.shapes.len() || shapes.is_empty() {
+        return;
+    }
+    let state = match build_potential(shapes[0].clone(), &h.group, &h.start) {
+        Ok(s) => s,
+        Err(e) => {
+            st.inconclusive.push(e);
+            return;
+        }
+    };
+    history::drive(h, state, &shapes, st, |s, _step, six, p, st| {
+        // the reference enumerates every image inside the reach: bound its work
+        let lat = lattice_of(&s.cell);
+        let (ha, hb) = (lat.area() / lat.b.max(1e-300), lat.area() / lat.a.max(1e-300));
+        let atoms = lj_atoms(&s.shape);
+        let reach = atoms.iter().map(|a| a.cutoff.map(|c| c * a.sigma + 2.).unwrap_or(40. * a.sigma)).fold(0., f64::max);
+        let n = s.total_shapes() as f64 * atoms.len() as f64;
+        let work = (2. * reach / ha + 1.) * (2. * reach / hb + 1.) * n * n;
+        if !(work < 3e5) {
+            st.count("history_states_skipped(reference too large)");
+            return;
+        }
+        st.eval();
+        let c = Case { group: h.group.clone(), shape: h.shapes[six].clone(), params: *p, shift: None, face: None };
+        let _ = judge_absolute(s, &c, st);
+    });
+    history::rewrap(st, before, "c03.history", h);
+}
+
+pub fn gen_history<R: Rng>(rng: &mut R) -> History {
+    let group = groups::NAMES[rng.gen_range(0, 7)];
+    let n = rng.gen_range(1, 4);
+    let shapes: Vec<ShapeSpec> = (0..n).map(|_| if rng.gen_bool(0.3) { ShapeSpec::Circle } else { libx::gen::trimer(rng) }).collect();
+    let copies = groups::group(group).unwrap().ops.len() as f64;
+    history::gen_history(rng, group, shapes, true, 0.4 * copies.sqrt())
+}
+
 pub fn run(ctx: &Ctx) {
-    ctx.set_rule("Lennard-Jones states of all 7 groups x {circle (uncut), trimers over the CLI's ranges (cutoff 3.5)} x cells (ratio 0.25-1, oblique angle pi/6-pi/2) at densities from strongly overlapping (0.3 molecule areas per molecule) to dilute (6), sites incl. special positions. Reference: exhaustive sum over EVERY pair of distinct molecule images within cutoff + extents (uncut: 40 sigma), each once, divided by N; pair kernel = the library's LJ2::energy (checked by C13) and, for like particles, the independent 12-6 law. Tolerance 1e-9 of the summed term magnitudes (uncut: 3% of the attractive sum). Also states with several occupied sites of different multiplicity (PotentialState::initialise with hand-made sites). Metamorphic: a copy moved across a cell face (1/2-1e-9 vs -1/2+1e-9) and origin shifts by the group's normaliser translations must not change the score. Non-trivial = at least one in-cell pair and one image pair carry energy; distinct by quantised parameters");
+    ctx.set_rule("Lennard-Jones states of all 7 groups x {circle (uncut), trimers over the CLI's ranges (cutoff 3.5)} x cells (ratio 0.25-1, oblique angle pi/6-pi/2) at densities from strongly overlapping (0.3 molecule areas per molecule) to dilute (6), sites incl. special positions. Reference: exhaustive sum over EVERY pair of distinct molecule images within cutoff + extents (uncut: 40 sigma), each once, divided by N; pair kernel = the library's LJ2::energy (checked by C13) and, for like particles, the independent 12-6 law. Tolerance 1e-9 of the summed term magnitudes (uncut: 3% of the attractive sum). Also state objects that live through histories of 3-13 edits (several parameters at once, shape or cell replaced, clone(), JSON round trip), clause 1 after every edit. Also states with several occupied sites of different multiplicity (PotentialState::initialise with hand-made sites). Metamorphic: a copy moved across a cell face (1/2-1e-9 vs -1/2+1e-9) and origin shifts by the group's normaliser translations must not change the score. Non-trivial = at least one in-cell pair and one image pair carry energy; distinct by quantised parameters");
     ctx.assume("pair energies are the library's own (C13 decides them); placements are read from cartesian_positions()");
     let n = ctx.tier.pick(5_000u64, 300_000u64);
     par_shards(ctx, 3, 64, |_, rng, st| {
         for _ in 0..n {
             check(&gen_case(rng), st);
+        }
+        for _ in 0..(n / 40).max(5) {
+            check_history(&gen_history(rng), st);
         }
         for _ in 0..(n / 50).max(5) {
             check_multi_site(rng.gen(), st);
@@ -433,6 +492,8 @@ pub fn replay(ctx: &Ctx, case: &Value) {
     let mut st = Stats::new();
     if let (Some(seed), true) = (case["seed"].as_u64(), case.get("group").is_none()) {
         check_multi_site(seed, &mut st);
+    } else if let Ok(h) = serde_json::from_value::<History>(case.clone()) {
+        check_history(&h, &mut st);
     } else if let Ok(c) = serde_json::from_value::<Case>(case.clone()) {
         check(&c, &mut st);
     }
